@@ -757,6 +757,11 @@ fn execute_c17(plan: &ApiPlan) -> RunOut {
                     CKind::Pulling => PullingGauge::new(cr.name.clone(), cr.help.clone(), Box::new(|| 0.0)).is_ok(),
                 });
                 guard(&what, false, r);
+                if cr.path == 2 {
+                    // options that carry variable labels handed to a scalar constructor: any answer but a panic
+                    let o = opts.clone().variable_label("vl");
+                    guard("scalar constructor given variable labels", false, catch(|| Counter::with_opts(o.clone()).is_ok() | IntGauge::with_opts(o.clone()).is_ok() | Histogram::with_opts(HistogramOpts::from(o.clone())).is_ok()));
+                }
             }
             Call::VecOps { labels, values, maps } => {
                 let names: Vec<&str> = labels.iter().map(|s| s.as_str()).collect();
